@@ -869,3 +869,116 @@ Section ChainDecode.
     apply chain_delivers_decode; assumption.
   Qed.
 End ChainDecode.
+
+(* ====================================================================================================
+   C04: a frame of unsegmented messages is decoded field by field as laid out on the wire
+   ==================================================================================================== *)
+Definition umsg := (mhdr * list Z)%type.
+Definition umsg_ok (m : umsg) : Prop := seg_hdr_ok (fst m) 0 (snd m).
+Definition ser_umsg (m : umsg) : list Z := ser_mhdr (fst m) ++ snd m.
+Definition area (ms : list umsg) : list Z := concat (map ser_umsg ms).
+(* what must come out for message m of a frame with header fh: every field as serialised *)
+Definition spec_packet (fh : fhdr) (m : umsg) : packet := mkp fh (f_mt fh) (f_ver fh) (fst m) (snd m).
+
+(* what may follow the complete messages: nothing, or bytes that are no complete valid message (padding, a message cut short) *)
+Definition tail_stops (tail : list Z) : Prop := tail = [] \/ valid_packet tail (zlen tail) = false.
+
+Lemma zlen_ser_umsg m : zlen (ser_umsg m) = 16 + zlen (snd m).
+Proof. unfold ser_umsg. rewrite zlen_app, ser_mhdr_zlen. reflexivity. Qed.
+
+Lemma dloop_msgs : forall ms fuel fh tail st acc,
+  Forall umsg_ok ms -> tail_stops tail -> (length ms < fuel)%nat ->
+  exists st', dloop fuel fh (area ms ++ tail) (zlen (area ms ++ tail)) st acc = Ok (st', acc ++ map (spec_packet fh) ms) /\
+              ((ms <> [] \/ tail <> []) -> lookup (fep fh) st' = None) /\ ((ms = [] /\ tail = []) -> st' = st).
+Proof.
+  induction ms as [|m ms IH]; intros fuel fh tail st acc Hok Ht Hf.
+  - destruct fuel as [|fuel]; [cbn in Hf; lia|]. cbn [area map concat app]. rewrite app_nil_r.
+    destruct Ht as [->|Hv].
+    + cbn [dloop]. change (zlen (@nil Z)) with 0. cbn [Z.leb]. eexists. split; [reflexivity|]. split; [intros [H|H]; congruence|auto].
+    + cbn [dloop]. destruct (Z.leb_spec (zlen tail) 0).
+      * (* an empty tail is excluded by Hv only if ... zlen tail = 0 means tail = [] *)
+        assert (tail = []) as -> by (destruct tail; [reflexivity|unfold zlen in *; cbn [length] in *; lia]).
+        eexists. split; [reflexivity|]. split; [intros [H'|H']; congruence|auto].
+      * rewrite Hv. cbn [negb]. eexists. split; [reflexivity|]. split; [intros _; apply lookup_erase_same|].
+        intros [_ ->]. unfold zlen in *. cbn in *. lia.
+  - destruct fuel as [|fuel]; [cbn in Hf; lia|]. inversion Hok as [|? ? Hm Hms]; subst.
+    destruct m as [h body]. unfold umsg_ok in Hm. cbn [fst snd] in Hm.
+    cbn [area map concat]. fold (area ms). unfold ser_umsg at 1. cbn [fst snd]. rewrite <- !app_assoc.
+    set (rest := area ms ++ tail).
+    change (ser_mhdr h ++ body ++ rest) with (seg_msg h body rest).
+    assert (Hsz : zlen (seg_msg h body rest) = msg_size body rest) by (unfold seg_msg, msg_size; rewrite !zlen_app, ser_mhdr_zlen; lia).
+    replace (zlen (ser_umsg (h, body) ++ rest)) with (msg_size body rest)
+      by (rewrite <- Hsz; unfold ser_umsg, seg_msg; cbn [fst snd]; rewrite <- app_assoc; reflexivity).
+    destruct (parse_seg_msg h 0 body rest Hm) as (P & V & B).
+    destruct Hm as (Hhok & Hfl & _ & _ & Hpl).
+    cbn [dloop]. unfold msg_size at 1.
+    pose proof (zlen_nonneg body). pose proof (zlen_nonneg rest).
+    destruct (Z.leb_spec (16 + zlen body + zlen rest) 0); [lia|].
+    fold (msg_size body rest). rewrite V. cbn [negb]. rewrite (valid_packet_extent _ _ V). rewrite P, Hfl, B. cbn [Z.eqb].
+    assert (Hd : drop (h_plen h) (drop 16 (seg_msg h body rest)) = rest).
+    { unfold seg_msg. rewrite (drop_app_exact (ser_mhdr h)) by apply ser_mhdr_zlen. rewrite Hpl. apply drop_app_exact. reflexivity. }
+    rewrite Hd. replace (msg_size body rest - 16 - h_plen h) with (zlen rest) by (unfold msg_size; lia).
+    destruct (IH fuel fh tail (erase (f_dev fh, f_stream fh) st) (acc ++ [mkp fh (f_mt fh) (f_ver fh) h body]) Hms Ht ltac:(cbn in Hf; lia))
+      as (st' & E & L1 & L2).
+    fold rest in E. rewrite E. exists st'. split.
+    + rewrite <- app_assoc. reflexivity.
+    + split; [|intros [H' _]; discriminate]. intros _.
+      destruct ms as [|m' ms']; [destruct tail as [|t0 tl]|].
+      * rewrite (L2 (conj eq_refl eq_refl)). apply lookup_erase_same.
+      * apply L1. right. discriminate.
+      * apply L1. left. discriminate.
+Qed.
+
+(* zero padding never looks like a message *)
+Lemma nth_repeat0 n k : nth n (repeat 0 k) 0 = 0.
+Proof. revert n. induction k as [|k IH]; intros [|n]; cbn; auto. Qed.
+Lemma skipn_repeat {A} (x : A) n k : skipn n (repeat x k) = repeat x (k - n).
+Proof. revert n. induction k as [|k IH]; intros [|n]; cbn [skipn repeat Nat.sub]; auto. Qed.
+Lemma zeros_stop k : tail_stops (zeros k).
+Proof.
+  right. unfold valid_packet. destruct (16 <=? zlen (zeros k)); [|reflexivity]. cbn [andb].
+  assert (h_ptype (parse_mhdr (zeros k)) = 0) as ->.
+  { unfold parse_mhdr, zeros. cbn [h_ptype]. rewrite !skipn_repeat. apply nth_repeat0. }
+  rewrite !andb_false_r. reflexivity.
+Qed.
+
+(* a message cut short never looks like a complete message *)
+Lemma take_app_ge {A} (n : Z) (a b : list A) : zlen a <= n -> take n (a ++ b) = a ++ take (n - zlen a) b.
+Proof.
+  intros H. unfold take, zlen in *. rewrite firstn_app. rewrite firstn_all2 by lia. f_equal. f_equal. lia.
+Qed.
+Lemma cut_stops m n : umsg_ok m -> 0 <= n < zlen (ser_umsg m) -> tail_stops (take n (ser_umsg m)).
+Proof.
+  intros Hm Hn. right. destruct m as [h body]. unfold umsg_ok in Hm. cbn [fst snd] in Hm. rewrite zlen_ser_umsg in Hn. cbn [snd] in Hn.
+  assert (Hz : zlen (take n (ser_umsg (h, body))) = n).
+  { apply zlen_take. rewrite zlen_ser_umsg. cbn [snd]. lia. }
+  unfold valid_packet. rewrite Hz. destruct (Z.leb_spec 16 n) as [H16|H16]; [|reflexivity]. cbn [andb].
+  unfold ser_umsg. cbn [fst snd]. rewrite take_app_ge by (rewrite ser_mhdr_zlen; exact H16). rewrite ser_mhdr_zlen.
+  destruct Hm as (Hhok & _ & _ & _ & Hpl).
+  rewrite (parse_ser h _ Hhok). rewrite Hpl.
+  destruct (Z.leb_spec (zlen body) (n - 16)); [lia|]. reflexivity.
+Qed.
+
+(* the decoder on a whole frame *)
+Theorem decode_unsegmented_frame : forall fh ms tail st,
+  fhdr_ok fh -> Forall umsg_ok ms -> tail_stops tail -> (ms <> [] \/ tail <> []) ->
+  exists st', decode st (ser_fhdr fh ++ area ms ++ tail) = Ok (st', map (spec_packet fh) ms) /\ lookup (fep fh) st' = None.
+Proof.
+  intros fh ms tail st Hf Hok Ht Hne.
+  assert (Hpos : 0 < zlen (area ms ++ tail)).
+  { destruct Hne as [H|H].
+    - destruct ms as [|m ms']; [congruence|]. cbn [area map concat]. rewrite <- app_assoc, zlen_app, zlen_ser_umsg.
+      pose proof (zlen_nonneg (snd m)). pose proof (zlen_nonneg (concat (map ser_umsg ms') ++ tail)). lia.
+    - rewrite zlen_app. pose proof (zlen_nonneg (area ms)). destruct tail; [congruence|]. unfold zlen at 2. cbn [length]. lia. }
+  rewrite decode_frame by assumption.
+  destruct (dloop_msgs ms (fuel_of (zlen (area ms ++ tail))) fh tail st [] Hok Ht) as (st' & E & L1 & _).
+  { (* one iteration per message: every message takes at least 16 bytes *)
+    unfold fuel_of.
+    assert (G : 16 * Z.of_nat (length ms) <= zlen (area ms)).
+    { clear. induction ms as [|m ms IH]; [unfold zlen; cbn; lia|].
+      cbn [area map concat length]. fold (area ms). rewrite zlen_app, zlen_ser_umsg, Nat2Z.inj_succ. pose proof (zlen_nonneg (snd m)). lia. }
+    rewrite zlen_app. pose proof (zlen_nonneg tail).
+    assert (Z.of_nat (length ms) <= (zlen (area ms) + zlen tail) / 16) by (apply Z.div_le_lower_bound; lia).
+    lia. }
+  exists st'. split; [exact E|]. apply L1. exact Hne.
+Qed.
